@@ -2,7 +2,7 @@
 Props/C16 — property theorems for C16 (system alignment is rigid and exact; scaling is uniform).
 
 PARTIAL by nature.  NOT proved (validated by sampling in harness/corr/c16.py, and in fact violated by the unchanged code in
-about 0.3 % of in-domain cases — known finding D17): that scipy's `least_squares` reaches a zero residual from the zero start
+about 0.3 % of in-domain cases — known finding D161): that scipy's `least_squares` reaches a zero residual from the zero start
 within `max_nfev` evaluations whenever the misalignment is below 30° / 3 m.  The optimiser is a PARAMETER of the model
 (`lsq : Lsq ℝ`): the structural theorems hold for every optimiser; the exactness theorems take "the residual at the
 optimiser's answer is zero" (`Aligned raw …`, equivalent by `residual_zero_iff_aligned`) as their hypothesis.
@@ -29,7 +29,7 @@ theorem gen_residual_flow : Gen.C16.residualFlow =
     Gen.C16.residualReturns = ["residual"] := by decide
 theorem gen_params_split : Gen.C16.rotHi = 3 ∧ Gen.C16.transLo = 3 ∧ Gen.C16.nParams = 6 := by decide
 /-- the optimiser is called on `_calc_residual` with the three sample sets, and its answer is turned into the pose;
-the evaluation cap is the one the convergence sampling (and finding D17) was characterised with -/
+the evaluation cap is the one the convergence sampling (and finding D161) was characterised with -/
 theorem gen_find_transformation : Gen.C16.lsqPositional = ["cls._calc_residual", "x0"] ∧
     Gen.C16.lsqArgs = "(origin, x_axis, xy_plane)" ∧ Gen.C16.lsqArgsKw = "args" ∧
     Gen.C16.findReturns = ["cls._Pose_from_params(result.x)"] ∧ 10 ≤ Gen.C16.maxNfev := by decide
